@@ -108,5 +108,5 @@ let () =
   register "layouts" cmd_layouts;
   register "enc" cmd_enc;
   register "dec" cmd_dec;
-  register "scan" cmd_scan;
+  register "fscan" cmd_scan;
   register "pad" cmd_pad
